@@ -80,6 +80,31 @@ def _case(args):
                 return 'accept'
     def stack_of(obj):
         return list(obj.parser_state.state_stack)
+    # the same table in the Lean driver's format; every real feed_token call is logged as a query (stack before, token, is_end) with what it did
+    tnames = sorted({k for row in states.values() for k in row if k.isupper() or k.startswith('$') or k.startswith('_') and k.upper() == k})
+    allsyms = sorted({k for row in states.values() for k in row})
+    rules_l, ridx = [], {}
+    def rix(r):
+        if id(r) not in ridx:
+            ridx[id(r)] = len(rules_l); rules_l.append(r)
+        return ridx[id(r)]
+    is_term_name = {}
+    for r in p.rules:
+        for s_ in r.expansion: is_term_name[s_.name] = s_.is_term
+        is_term_name[r.origin.name] = False
+    for row in states.values():
+        for k, (a_, arg) in row.items():
+            if a_ is not Shift:
+                rix(arg)
+                for s_ in arg.expansion: is_term_name[s_.name] = s_.is_term
+                is_term_name[arg.origin.name] = False
+    is_term_name['$END'] = True
+    tid = {n: i for i, n in enumerate(sorted(n for n in allsyms if is_term_name.get(n, True)))}
+    ntid = {n: i for i, n in enumerate(sorted({n for n in allsyms if not is_term_name.get(n, True)} | {r.origin.name for r in rules_l}))}
+    qlog = []
+    def logq(before, ttype, is_end, status, after):
+        if ttype in tid:
+            qlog.append([[before, tid[ttype], 1 if is_end else 0], [status, after]])
     def check_stack(c, what):
         if stack_of(c['obj']) != c['ref']:
             failures.append({'kind': 'state_stack', 'cursor': c['id'], 'after': what, 'consumed': [str(t) for t in seqs[c['seq']][:c['k']]], 'state_stack': stack_of(c['obj']), 'reference_stepper': list(c['ref'])})
@@ -127,7 +152,9 @@ def _case(args):
                         log.append(['feed_imm', c['id'], n['id']])
                         if not (check_stack(n, 'immutable feed_token') and check_stack(c, 'immutable feed_token (the original)')): break
                     else:
+                        before_ = stack_of(c['obj'])
                         c['obj'].feed_token(tok); c['k'] += 1
+                        logq(before_, tok.type, False, 'shifted', stack_of(c['obj']))
                         ref_feed(c['ref'], tok.type)
                         log.append(['feed', c['id']])
                         if not check_stack(c, 'feed_token'): break
@@ -139,6 +166,7 @@ def _case(args):
                     if c['imm']:
                         if not check_stack(c, 'a failed immutable feed_token (the original)'): break
                     else:
+                        logq(list(c['ref']), tok.type, False, 'error', stack_of(c['obj']))
                         # the error state: reductions made before the error was noticed stay, the token is not consumed; the cursor goes on with the
                         # rest of its sequence (the offending token dropped), as an on_error handler would
                         if ref_feed(c['ref'], tok.type) != 'error':
@@ -244,7 +272,19 @@ def _case(args):
                 failures.append({'kind': 'lexer_driven', 'text': text, 'snapshot_after_tokens': j, 'finished_in_order': [n for n, _ in outs_], 'which': name, 'got': got, 'parse': want})
                 break
     # results returned earlier must not have been modified by later forks: re-canonicalise is implicit (canon copies), so compare stored objects again
-    return {'grammar': g, 'opts': opts, 'texts': texts, 'log': log, 'failures': failures[:3], 'forks': len(cursors), 'ops': len(log),
+    lr_case = None
+    if qlog:
+        shifts, reduces, gotos = [], [], []
+        for q, row in states.items():
+            for k, (a_, arg) in row.items():
+                if a_ is Shift:
+                    (shifts if k in tid else gotos).append([q, tid[k] if k in tid else ntid[k], arg])
+                elif k in tid:
+                    reduces.append([q, tid[k], rix(arg)])
+        lr_case = {'op': 'lr_feed', 'rules': [{'lhs': ntid[r.origin.name], 'rhs': [[1, tid[s_.name]] if s_.is_term else [0, ntid[s_.name]] for s_ in r.expansion]} for r in rules_l],
+                   'items': [], 'shifts': shifts, 'reduces': reduces, 'gotos': gotos, 'start': pt.start_states['start'], 'final': end_state, 'fuel': 400,
+                   'queries': [q for q, _ in qlog]}
+    return {'grammar': g, 'opts': opts, 'texts': texts, 'log': log, 'failures': failures[:3], 'lr_case': lr_case, 'lr_real': [r for _, r in qlog], 'forks': len(cursors), 'ops': len(log),
             'accepted': sum(1 for r in refs if r and r[0] == 'ok'), 'seqs': len(seqs), 'error_states_continued': sum(1 for c in cursors if c['errored'])}
 
 
@@ -273,6 +313,7 @@ def run(ctx, res):
     import lalrlib
     jobs = [((shapelib.gen_grammar(rng) if i % 3 else lalrlib.gen_lalr(rng) + '%ignore " "\n'), rng.randrange(1 << 30)) for i in range(N)]
     outs = pmap(_case, jobs, chunksize=4)
+    lr_jobs = []
     for job, (st, rec) in zip(jobs, outs):
         if st != 'ok':
             if st == 'exc':
@@ -286,6 +327,8 @@ def run(ctx, res):
             res.count('not_lalr'); continue
         res.case(['forks', rec['grammar'], rec['texts'], rec['log']], nontrivial=rec['forks'] > 2,
                  sample={'grammar': rec['grammar'], 'opts': rec['opts'], 'texts': rec['texts'], 'operations': rec['log']} if rec['forks'] > 4 and len(res.samples) < 3 else None)
+        if rec.get('lr_case'):
+            lr_jobs.append((rec, rec['lr_case']))
         res.count('fork_trees'); res.count('cursors', rec['forks']); res.count('operations', rec['ops']); res.count('sequences', rec['seqs']); res.count('accepted_sequences', rec['accepted'])
         for f in rec['failures']:
             what = {'result': 'a fork does not end with the result of parse() on its own token sequence',
@@ -298,3 +341,16 @@ def run(ctx, res):
                     'outcome_vs_table': 'a fork does not end as stepping the parse table from its state does',
                     'lexer_driven': 'a lexer-driven fork (parse_interactive(text) + as_immutable()/copy() + exhaust_lexer) does not end with the result of parse(text)'}[f['kind']]
             res.violation(what, {'grammar': rec['grammar'], 'opts': rec['opts'], 'texts': rec['texts'], 'operations': rec['log'], 'detail': f})
+
+    # ---- every logged feed_token call against the Lean driver model on lark's own table: verdict (reduceLoop) and stacks left behind (reductionsOn)
+    from common import run_driver_parallel
+    model = run_driver_parallel([c for _, c in lr_jobs]) if lr_jobs else []
+    for (rec, case), m in zip(lr_jobs, model):
+        if isinstance(m, dict):
+            raise InfraError('driver lr_feed: %s' % m)
+        res.count('feed_calls_against_lean_model', len(m))
+        for q, real, mo in zip(case['queries'], rec['lr_real'], m):
+            if [mo['status'], mo['stack']] != real:
+                res.violation('feed_token: verdict / state stack left behind differ from the model (reduceLoop / reductionsOn on lark\'s own table)' + (' — an error state' if real[0] == 'error' else ''),
+                              {'grammar': rec['grammar'], 'opts': rec['opts'], 'state_stack_before': q[0], 'token_id': q[1], 'code': real, 'model': [mo['status'], mo['stack']]})
+                break
